@@ -118,8 +118,143 @@ def _same_block(a: list, b: list) -> bool:
 # --------------------------------------------------------------------------- node level
 
 
+# signatures of the whole package (set by core.Program before its modules are normalised): a keyword that names a leading
+# parameter of a callee defined anywhere in the package is written positionally, so `Beta(name=n, value=1)` and `Beta(n, 1)`
+# are one construct.  Only names defined once in the package (functions, classes with an explicit __init__, methods whose
+# name no other class and no builtin container uses).
+SIGS: dict[str, list[str]] = {}
+SIGS_BY_MODULE: dict[str, list[tuple[str, list[str]]]] = {}  # names defined more than once: told apart by the import of the caller
+METHOD_SIGS: dict[str, list[str]] = {}
+SIGS_VERSION = ''
+_BUILTIN_METHODS = {m for t in (dict, list, set, str, tuple, frozenset, bytes) for m in dir(t)}
+
+
+def module_signatures(tree: ast.Module):
+    """(functions and constructors, methods) defined in one module: name -> positional parameter names (None: not usable)"""
+    funcs: dict[str, list[str] | None] = {}
+    meths: dict[str, list[list[str] | None]] = {}
+    for st in tree.body:
+        if isinstance(st, ast.FunctionDef):
+            funcs[st.name] = NodeLevel._params(st, False)
+        elif isinstance(st, ast.ClassDef):
+            for f in st.body:
+                if not isinstance(f, ast.FunctionDef):
+                    continue
+                static = any(isinstance(d, ast.Name) and d.id == 'staticmethod' for d in f.decorator_list)
+                prop = any((isinstance(d, ast.Name) and d.id == 'property') or isinstance(d, ast.Attribute) for d in f.decorator_list)
+                if prop:
+                    continue
+                ps = NodeLevel._params(f, not static)
+                if f.name == '__init__':
+                    funcs[st.name] = ps
+                elif not f.name.startswith('__'):
+                    meths.setdefault(f.name, []).append(ps)
+    return funcs, meths
+
+
+def module_name(path: str) -> str:
+    """src/biogeme/expressions/beta_parameters.py -> biogeme.expressions.beta_parameters ; .../__init__.py -> the package"""
+    parts = path[:-3].split('/')
+    if parts and parts[0] == 'src':
+        parts = parts[1:]
+    if parts and parts[-1] == '__init__':
+        parts = parts[:-1]
+    return '.'.join(parts)
+
+
+def set_signatures(per_module: list, paths: list[str] | None = None) -> None:
+    """per_module: results of module_signatures for every module of the program (paths: their files, same order)"""
+    global SIGS, SIGS_BY_MODULE, METHOD_SIGS, SIGS_VERSION
+    seen: dict[str, list] = {}
+    mseen: dict[str, list] = {}
+    by_mod: dict[str, list] = {}
+    for n, (funcs, meths) in enumerate(per_module):
+        for k, v in funcs.items():
+            seen.setdefault(k, []).append(v)
+            if paths is not None and v:
+                by_mod.setdefault(k, []).append((module_name(paths[n]), v))
+        for k, vs in meths.items():
+            mseen.setdefault(k, []).extend(vs)
+    sigs = {k: v[0] for k, v in seen.items() if len(v) == 1 and v[0]}
+    by_mod = {k: v for k, v in by_mod.items() if len(seen[k]) > 1}
+    msigs = {k: v[0] for k, v in mseen.items() if len(v) == 1 and v[0] and k not in _BUILTIN_METHODS}
+    version = repr(sorted(sigs.items())) + repr(sorted(msigs.items())) + repr(sorted(by_mod.items()))
+    if version != SIGS_VERSION:
+        SIGS, SIGS_BY_MODULE, METHOD_SIGS, SIGS_VERSION = sigs, by_mod, msigs, version
+
+
+def fold_string(node: ast.JoinedStr):
+    """one spelling of a formatted string: nested f-strings flattened, constant fields and adjacent literals merged"""
+    parts: list = []
+
+    def push(x):
+        if isinstance(x, ast.Constant) and isinstance(x.value, str):
+            if x.value == '':
+                return
+            if parts and isinstance(parts[-1], ast.Constant):
+                parts[-1] = ast.copy_location(ast.Constant(value=parts[-1].value + x.value), parts[-1])
+            else:
+                parts.append(x)
+        elif isinstance(x, ast.FormattedValue) and x.conversion == -1 and x.format_spec is None and isinstance(x.value, ast.Constant) and isinstance(x.value.value, str):
+            push(x.value)
+        elif isinstance(x, ast.FormattedValue) and x.conversion == -1 and x.format_spec is None and isinstance(x.value, ast.JoinedStr):
+            for y in x.value.values:
+                push(y)
+        else:
+            parts.append(x)
+
+    for v in node.values:
+        push(v)
+    if not parts:
+        return ast.copy_location(ast.Constant(value=''), node)
+    if len(parts) == 1 and isinstance(parts[0], ast.Constant):
+        return ast.copy_location(parts[0], node)
+    node.values = parts
+    return node
+
+
+def _format_to_fstring(fmt: str, args: list):
+    import string
+
+    try:
+        fields = list(string.Formatter().parse(fmt))
+    except ValueError:
+        return None
+    values: list = []
+    auto = 0
+    for lit, name, spec, conv in fields:
+        if lit:
+            values.append(ast.Constant(value=lit))
+        if name is None:
+            continue
+        if conv is not None or (spec and ('{' in spec)):
+            return None
+        if name == '':
+            k = auto
+            auto += 1
+        elif name.isdigit():
+            k = int(name)
+        else:
+            return None
+        if k >= len(args):
+            return None
+        values.append(ast.FormattedValue(value=args[k], conversion=-1, format_spec=ast.JoinedStr(values=[ast.Constant(value=spec)]) if spec else None))
+    used = auto if auto else len({n for _, n, _, _ in fields if n})
+    if used != len(args):
+        return None
+    return ast.fix_missing_locations(ast.JoinedStr(values=values))
+
+
+class _FoldStrings(ast.NodeTransformer):
+    def visit_JoinedStr(self, node):
+        self.generic_visit(node)
+        return fold_string(node)
+
+
 class NodeLevel(ast.NodeTransformer):
-    def __init__(self):
+    def __init__(self, path: str = ''):
+        self.path = path
+        self.imported: dict[str, str] = {}
         self.depth = 0
         self.mod_funcs: dict[str, list[str] | None] = {}
         self.cls_methods: list[dict[str, list[str] | None]] = []
@@ -133,7 +268,19 @@ class NodeLevel(ast.NodeTransformer):
         return names[1:] if drop_first else names
 
     def visit_Module(self, node):
-        self.mod_funcs = {f.name: self._params(f, False) for f in node.body if isinstance(f, ast.FunctionDef)}
+        self.mod_funcs = module_signatures(node)[0]
+        here = module_name(self.path).split('.') if self.path else []
+        is_pkg = self.path.endswith('__init__.py')
+        for st in ast.walk(node):
+            if isinstance(st, ast.ImportFrom):
+                base = (st.module or '').split('.') if st.module else []
+                if st.level:
+                    up = here if is_pkg else here[:-1]
+                    up = up[: len(up) - (st.level - 1)] if st.level > 1 else up
+                    base = up + base
+                for a in st.names:
+                    if a.asname is None or a.asname == a.name:
+                        self.imported[a.name] = '.'.join(base)
         self.generic_visit(node)
         return node
 
@@ -163,6 +310,12 @@ class NodeLevel(ast.NodeTransformer):
 
     def visit_Call(self, node):
         self.generic_visit(node)
+        # 'a {} b {}'.format(x, y)  ->  f'a {x} b {y}'
+        if isinstance(node.func, ast.Attribute) and node.func.attr == 'format' and isinstance(node.func.value, ast.Constant) and isinstance(node.func.value.value, str) \
+                and not node.keywords and not any(isinstance(a, ast.Starred) for a in node.args):
+            js = _format_to_fstring(node.func.value.value, node.args)
+            if js is not None:
+                return fold_string(ast.copy_location(js, node))
         # generator expression consumed at once
         if len(node.args) == 1 and not node.keywords and isinstance(node.args[0], ast.GeneratorExp):
             name = node.func.attr if isinstance(node.func, ast.Attribute) else getattr(node.func, 'id', '')
@@ -173,9 +326,22 @@ class NodeLevel(ast.NodeTransformer):
             return node
         params = None
         if isinstance(node.func, ast.Name):
-            params = self.mod_funcs.get(node.func.id)
-        elif isinstance(node.func, ast.Attribute) and isinstance(node.func.value, ast.Name) and node.func.value.id == 'self' and self.cls_methods:
+            params = self.mod_funcs[node.func.id] if node.func.id in self.mod_funcs else SIGS.get(node.func.id)
+            if params is None and node.func.id in SIGS_BY_MODULE and node.func.id in self.imported:
+                src = self.imported[node.func.id]
+                cands = [ps for m, ps in SIGS_BY_MODULE[node.func.id] if m == src or m.startswith(src + '.')]
+                if len(cands) == 1:
+                    params = cands[0]
+            if params is None and node.func.id in SIGS_BY_MODULE and (not self.path or node.func.id not in self.imported):
+                # (in a pattern there are no imports: the definition that has all the keywords used)
+                names = {k.arg for k in node.keywords}
+                cands = [ps for m, ps in SIGS_BY_MODULE[node.func.id] if names <= set(ps)]
+                if len(cands) == 1:
+                    params = cands[0]
+        elif isinstance(node.func, ast.Attribute) and isinstance(node.func.value, ast.Name) and node.func.value.id == 'self' and self.cls_methods and node.func.attr in self.cls_methods[-1]:
             params = self.cls_methods[-1].get(node.func.attr)
+        elif isinstance(node.func, ast.Attribute):
+            params = METHOD_SIGS.get(node.func.attr)
         if not params:
             return node
         kw = {k.arg: k for k in node.keywords}
@@ -199,13 +365,20 @@ class NodeLevel(ast.NodeTransformer):
         if not visited:
             self.generic_visit(node)
         v = node.value
+        # a, b = x, y  ->  a = x ; b = y   (fresh names on the left, none of them read on the right)
+        if self.depth and len(node.targets) == 1 and isinstance(node.targets[0], ast.Tuple) and isinstance(v, ast.Tuple) and len(v.elts) == len(node.targets[0].elts) >= 2 \
+                and all(isinstance(t, ast.Name) for t in node.targets[0].elts) and not any(isinstance(e, ast.Starred) for e in v.elts):
+            names = {t.id for t in node.targets[0].elts}
+            if len(names) == len(v.elts) and not any(isinstance(n, ast.Name) and n.id in names for e in v.elts for n in ast.walk(e)):
+                return [self.visit_Assign(ast.copy_location(ast.Assign(targets=[t], value=e, type_comment=None), node), visited=True) for t, e in zip(node.targets[0].elts, v.elts)]
         if (len(node.targets) == 1 and isinstance(node.targets[0], ast.Name) and isinstance(v, ast.BinOp) and isinstance(v.left, ast.Name) and v.left.id == node.targets[0].id
                 and isinstance(v.right, ast.Constant) and isinstance(v.right.value, (int, float)) and not isinstance(v.right.value, bool) and isinstance(v.op, (ast.Add, ast.Sub, ast.Mult))):
             return ast.copy_location(ast.AugAssign(target=node.targets[0], op=v.op, value=v.right), node)
         return node
 
-    def visit_AugAssign(self, node):
-        self.generic_visit(node)
+    def visit_AugAssign(self, node, visited=False):
+        if not visited:
+            self.generic_visit(node)
         # x += [e]  ->  x.append(e)
         if self.depth and isinstance(node.op, ast.Add) and isinstance(node.value, ast.List) and len(node.value.elts) == 1 and not isinstance(node.value.elts[0], ast.Starred) and isinstance(node.target, (ast.Name, ast.Attribute, ast.Subscript)):
             tgt = copy.deepcopy(node.target)
@@ -221,6 +394,31 @@ class NodeLevel(ast.NodeTransformer):
         v = node.value
         if self.depth and isinstance(v, ast.Call) and isinstance(v.func, ast.Attribute) and v.func.attr in ('debug', 'info') and isinstance(v.func.value, ast.Name) and v.func.value.id in ('logger', 'logging'):
             return None
+        # x.extend([...])  ->  x += [...]
+        if self.depth and isinstance(v, ast.Call) and isinstance(v.func, ast.Attribute) and v.func.attr == 'extend' and len(v.args) == 1 and not v.keywords and isinstance(v.args[0], (ast.List, ast.ListComp)) \
+                and isinstance(v.func.value, (ast.Name, ast.Attribute, ast.Subscript)):
+            tgt = copy.deepcopy(v.func.value)
+            for n in ast.walk(tgt):
+                if hasattr(n, 'ctx'):
+                    n.ctx = ast.Load()
+            tgt.ctx = ast.Store()
+            aug = ast.fix_missing_locations(ast.copy_location(ast.AugAssign(target=tgt, op=ast.Add(), value=v.args[0]), node))
+            return self.visit_AugAssign(aug, visited=True)
+        return node
+
+    def visit_JoinedStr(self, node):
+        self.generic_visit(node)
+        return fold_string(node)
+
+    def visit_BinOp(self, node):
+        self.generic_visit(node)
+        # 'a' + f'{x}'  ->  f'a{x}'
+        if isinstance(node.op, ast.Add) and all(isinstance(x, ast.JoinedStr) or (isinstance(x, ast.Constant) and isinstance(x.value, str)) for x in (node.left, node.right)) \
+                and any(isinstance(x, ast.JoinedStr) for x in (node.left, node.right)):
+            parts = []
+            for x in (node.left, node.right):
+                parts.extend(x.values if isinstance(x, ast.JoinedStr) else [x])
+            return fold_string(ast.copy_location(ast.JoinedStr(values=parts), node))
         return node
 
     def visit_IfExp(self, node):
@@ -523,6 +721,7 @@ class BlockLevel:
         stmts = self.push_use(stmts)
         stmts = self.expand_ifexp(stmts)
         stmts = self.swap_and_hoist(stmts, self.bare_kind(owner, field))
+        stmts = self.return_sign(stmts)
         stmts = self.unguard(stmts, owner, field)
         stmts = self.merge_ifs(stmts)
         stmts = self.loops(stmts)
@@ -593,6 +792,18 @@ class BlockLevel:
             out.append(st)
         return out
 
+    @staticmethod
+    def return_sign(stmts):
+        """`if not c: return a` + final `return b`  ->  `if c: return b` + `return a` (the two-way return has one spelling)"""
+        if len(stmts) >= 2 and isinstance(stmts[-1], ast.Return) and stmts[-1].value is not None:
+            st = stmts[-2]
+            if isinstance(st, ast.If) and not st.orelse and len(st.body) == 1 and isinstance(st.body[0], ast.Return) and st.body[0].value is not None:
+                pos = positive(st.test)
+                if pos is not None:
+                    st.test = pos
+                    st.body[0].value, stmts[-1].value = stmts[-1].value, st.body[0].value
+        return stmts
+
     def unguard(self, stmts, owner, field):
         """a jump that only skips the rest of the block is written as structure:
         `if c: A; continue` [else: B] + rest  ->  `if c: A else: B; rest`   (`if not c: B; rest` when A is empty);
@@ -658,8 +869,32 @@ class BlockLevel:
 
     def merge_accumulators(self, stmts):
         out = []
+
+        def trivial(a):
+            """`y = []` / `{}` / constant / `set()`: an initialisation that commutes with everything"""
+            if not (isinstance(a, ast.Assign) and len(a.targets) == 1 and isinstance(a.targets[0], ast.Name)):
+                return False
+            v = a.value
+            return (isinstance(v, (ast.List, ast.Tuple)) and not v.elts) or (isinstance(v, ast.Dict) and not v.keys) or isinstance(v, ast.Constant) \
+                or (isinstance(v, ast.Call) and isinstance(v.func, ast.Name) and v.func.id in ('set', 'list', 'dict') and not v.args and not v.keywords)
+
+        def target_of(st):
+            if isinstance(st, ast.AugAssign):
+                return ast.dump(_load(st.target))
+            if isinstance(st, ast.Expr) and isinstance(st.value, ast.Call) and isinstance(st.value.func, ast.Attribute):
+                return ast.dump(st.value.func.value)
+            return None
+
         for st in stmts:
             prev = out[-1] if out else None
+            tt = target_of(st)
+            if tt is not None:
+                # initialisations of other names between `x = L` and `x += M` do not separate them
+                j = len(out) - 1
+                while j >= 0 and trivial(out[j]) and ast.dump(_load(out[j].targets[0])) != tt:
+                    j -= 1
+                if j >= 0 and isinstance(out[j], ast.Assign) and len(out[j].targets) == 1 and ast.dump(_load(out[j].targets[0])) == tt:
+                    prev = out[j]
             if prev is not None and isinstance(prev, ast.Assign) and len(prev.targets) == 1:
                 t = ast.dump(_load(prev.targets[0]))
                 # x = L ; x += M
@@ -686,15 +921,25 @@ class BlockLevel:
     def temporaries(self) -> bool:
         loads, stores = _loads_stores(self.fn)
 
+        def slot(nxt, x):
+            """where the only reader of x sits in the statement that follows its definition: (object, attribute or index)"""
+            if isinstance(nxt, ast.Return) and isinstance(nxt.value, ast.Name) and nxt.value.id == x:
+                return nxt, 'value'
+            if isinstance(nxt, ast.Raise) and isinstance(nxt.exc, ast.Call) and len(nxt.exc.args) == 1 and not nxt.exc.keywords and isinstance(nxt.exc.args[0], ast.Name) and nxt.exc.args[0].id == x:
+                return nxt.exc.args, 0
+            if isinstance(nxt, ast.Expr) and isinstance(nxt.value, ast.Call) and not nxt.value.keywords and _simple_arg(nxt.value.func):
+                # `msg = e; errors.append(msg)` / `logger.warning(msg)`: nothing is evaluated between the definition and the use
+                args = nxt.value.args
+                hits = [k for k, a in enumerate(args) if isinstance(a, ast.Name) and a.id == x]
+                if len(hits) == 1 and all(_simple_arg(a) for a in args[: hits[0]]) and sum(isinstance(m, ast.Name) and m.id == x for m in ast.walk(nxt)) == 1:
+                    return args, hits[0]
+            return None
+
         def pair(st, nxt):
             if not (isinstance(st, ast.Assign) and len(st.targets) == 1 and isinstance(st.targets[0], ast.Name)) or nxt is None:
                 return None
             x = st.targets[0].id
-            if isinstance(nxt, ast.Return) and isinstance(nxt.value, ast.Name) and nxt.value.id == x:
-                return x
-            if isinstance(nxt, ast.Raise) and isinstance(nxt.exc, ast.Call) and len(nxt.exc.args) == 1 and not nxt.exc.keywords and isinstance(nxt.exc.args[0], ast.Name) and nxt.exc.args[0].id == x:
-                return x
-            return None
+            return x if slot(nxt, x) is not None else None
 
         blocks = _blocks(self.fn)
         pairs: dict[str, int] = {}
@@ -716,10 +961,11 @@ class BlockLevel:
                 nxt = stmts[i + 1] if i + 1 < len(stmts) else None
                 x = pair(st, nxt)
                 if x in ok:
-                    if isinstance(nxt, ast.Return):
-                        nxt.value = st.value
+                    obj, key = slot(nxt, x)
+                    if isinstance(key, str):
+                        setattr(obj, key, st.value)
                     else:
-                        nxt.exc.args[0] = st.value
+                        obj[key] = st.value
                     out.append(nxt)
                     i += 2
                     continue
@@ -1013,12 +1259,13 @@ def _functions(tree: ast.AST):
 
 
 def normalise_module(tree: ast.Module, path: str) -> ast.Module:
-    tree = NodeLevel().visit(tree)
+    tree = NodeLevel(path).visit(tree)
     # innermost functions first; helpers are normalised before they are expanded into their callers, callers again afterwards
     for fn in reversed(list(_functions(tree))):
         BlockLevel(fn).run()
     inline_unknown_helpers(tree, path)
     if any(getattr(fn, '_verif_expanded', 0) for fn in _functions(tree)):
+        tree = _FoldStrings().visit(tree)  # (a constant argument of a helper may now stand in a formatted string)
         for fn in reversed(list(_functions(tree))):
             BlockLevel(fn).run()
     ast.fix_missing_locations(tree)
